@@ -59,7 +59,7 @@ SPEC = {
     "translators": ("consts", "lockset"),
     "extra": race_stress,
     "rule": "the generated access table is checked exhaustively (all pairs of classes) inside Coq; the race stress runs "
-            "10 scenarios x rounds under the Go race detector with exact-total checks; distinct = (scenario, round)",
+            "11 scenarios x rounds under the Go race detector with exact-total checks; distinct = (scenario, round)",
     "trusted_base": ["tools/lockset translator: access-path abstraction of the Go source (roots = exported methods of the "
                      "middleware types, per-request objects not shared, type-level locations for objects reached through "
                      "call results, interface calls followed only for oxy interfaces, logger calls are no-ops)",
